@@ -45,6 +45,7 @@ fn complex_vectors(n: usize) {
         for i in 0..n { re = re + (a[i].real * b[i].real - a[i].imag * b[i].imag); im = im + (a[i].real * b[i].imag + a[i].imag * b[i].real); }
         prove_eq("complex dot = sum a_i b_i (real part; no conjugation)", r.real, re); prove_eq("complex dot = sum a_i b_i (imaginary part; no conjugation)", r.imag, im);
     });
+    if n == 0 { must("complex norm_inf of the empty vector", || mk(&a).norm_inf(), |r| { prove_eq("complex norm_inf(empty) = 0", r, z()); }); }
     if n >= 1 {
         let m2: Vec<Sym> = a.iter().map(|c| c.real * c.real + c.imag * c.imag).collect();
         must("complex norm_inf", || mk(&a).norm_inf(), |r| {
@@ -93,10 +94,10 @@ pub fn body(inst: &str) {
                 must("sum_slice", || vv(&a).sum_slice(st, en), |r| { let mut acc = z(); for i in st..=en { acc = acc + a[i]; } prove_eq(&format!("sum_slice({},{})", st, en), r, acc); });
                 must("product_slice", || vv(&a).product_slice(st, en), |r| { let mut acc = a[st]; for i in st + 1..=en { acc = acc * a[i]; } prove_eq(&format!("product_slice({},{})", st, en), r, acc); });
             } }
-            if n >= 1 {
-                must("sum", || vv(&a).sum(), |r| { let mut acc = z(); for x in &a { acc = acc + *x; } prove_eq("sum = a_0 + ... + a_{n-1}", r, acc); });
-                must("product", || vv(&a).product(), |r| { let mut acc = Sym::lit(1.0); for x in &a { acc = acc * *x; } prove_eq("product = a_0 * ... * a_{n-1}", r, acc); });
-            }
+            // length 0 included: the empty sum is 0, the empty product is 1 (the statement quantifies over lengths 0..64)
+            must("sum", || vv(&a).sum(), |r| { let mut acc = z(); for x in &a { acc = acc + *x; } prove_eq("sum = a_0 + ... + a_{n-1} (0 for the empty vector)", r, acc); });
+            must("product", || vv(&a).product(), |r| { let mut acc = Sym::lit(1.0); for x in &a { acc = acc * *x; } prove_eq("product = a_0 * ... * a_{n-1} (1 for the empty vector)", r, acc); });
+            if n == 0 { must("norm_inf of the empty vector", || (ohsl_sym::Vec64::create(Vec::new()).norm_inf(), vv(&a).norm_1()), |(ni, n1)| { prove_eq("norm_inf(empty) = 0", ni, z()); prove_eq("norm_1(empty) = 0", n1, z()); }); }
             // complex vectors: conj / real
             let zc: Vec<Complex<Sym>> = (0..n).map(|i| Complex::new(a[i], b[i])).collect();
             must("conj/real", || { let v = Vector::create(zc.clone()); (v.conj(), v.real()) }, |(c, re)| {
